@@ -26,6 +26,8 @@ type ModelCfg struct {
 	MaxPaths int  // 0 = cover every transition
 	Graph    bool // dump graph and replay (false: TLC only)
 	Workers  int
+	Crash    bool // replay = crash-point enumeration of the path as a workload (C04)
+	Nested   bool // also crash every recovery
 }
 
 func b2s(b bool) string {
@@ -361,14 +363,20 @@ func RunModel(ctx *vrun.Ctx, prop string, m ModelCfg, timeout time.Duration) err
 		}
 		sc := ScenarioOf(p[0].From.State)
 		f, fseed := getF(sc)
-		if err := replayPath(ctx, prop, f, p, caches[cacheSel[i]], fseed, nil); err != nil {
+		var err error
+		if m.Crash {
+			err = crashWorkload(ctx, f, p, caches[cacheSel[i]], m.Nested)
+		} else {
+			err = replayPath(ctx, prop, f, p, caches[cacheSel[i]], fseed, nil)
+			ctx.AddTraces(1)
+		}
+		if err != nil {
 			emu.Lock()
 			if firstErr == nil {
 				firstErr = err
 			}
 			emu.Unlock()
 		}
-		ctx.AddTraces(1)
 	})
 	return firstErr
 }
